@@ -19,11 +19,22 @@ def sh(cmd, **kw):
 
 def main():
     pid, wt, out = sys.argv[1:4]
-    checks = [pid] + sys.argv[4:]
-    for n in (1, 2):
+    round2 = pid == "--round2"
+    extra = sys.argv[4:]
+    for n in range(1, 10):
         src = os.path.join(out, f"change{n}")
         if not os.path.exists(os.path.join(src, "patch.diff")):
             continue
+        if round2:
+            import re
+
+            first = open(os.path.join(src, "notes.md")).read().splitlines()[0] if os.path.exists(os.path.join(src, "notes.md")) else ""
+            m = re.search(r"C\d\d", first)
+            if not m:
+                print(src, "no property in notes.md")
+                continue
+            pid = m.group(0)
+        checks = [pid] + extra
         sh(f"git -C {wt} checkout -q -- .")
         demo = os.path.join(src, "demo.py")
         d0 = sh(f"cd {wt} && PYTHONPATH={wt}/src /venv/bin/python {demo}").returncode
@@ -40,7 +51,13 @@ def main():
             caught[c] = {"exit": r.returncode, "signatures": sigs}
         sh(f"git -C {wt} checkout -q -- .")
         sh(f"rm -rf {VERIF}/replay")
-        dst = os.path.join(VERIF, "seeded", f"{pid}-{n}")
+        tag = f"{pid}-{n}"
+        if round2:
+            k = 3
+            while os.path.exists(os.path.join(VERIF, "seeded", f"{pid}-{k}")) and not _same_patch(os.path.join(VERIF, "seeded", f"{pid}-{k}", "patch.diff"), os.path.join(src, "patch.diff")):
+                k += 1
+            tag = f"{pid}-{k}"
+        dst = os.path.join(VERIF, "seeded", tag)
         os.makedirs(dst, exist_ok=True)
         for f in ("patch.diff", "demo.py", "notes.md"):
             if os.path.exists(os.path.join(src, f)):
@@ -48,7 +65,7 @@ def main():
         notes = open(os.path.join(src, "notes.md")).read() if os.path.exists(os.path.join(src, "notes.md")) else ""
         meta = {
             "property": pid,
-            "origin": "independent sub-agent given only the property text and its own scratch worktree of /repo (HEAD with all fix: commits)",
+            "origin": ("second round: independent sub-agent asked for subtle changes (rare values / shapes / call orders / cooperating sites), given only the property texts and its own scratch worktree" if round2 else "independent sub-agent given only the property text and its own scratch worktree of /repo (HEAD with all fix: commits)"),
             "needs_to_manifest": _needs(notes),
             "confirmed": {
                 "demo_exit_without_patch": d0,
@@ -61,7 +78,14 @@ def main():
         }
         with open(os.path.join(dst, "meta.json"), "w") as f:
             json.dump(meta, f, indent=1)
-        print(pid, n, "demo", d0, "->", d1, "| tests:", tests, "| caught by:", meta["caught_by"], {c: v["signatures"][:2] for c, v in caught.items()})
+        print(tag, "demo", d0, "->", d1, "| tests:", tests, "| caught by:", meta["caught_by"], {c: v["signatures"][:2] for c, v in caught.items()})
+
+
+def _same_patch(a, b):
+    try:
+        return open(a).read() == open(b).read()
+    except OSError:
+        return False
 
 
 def _needs(notes):
